@@ -348,6 +348,8 @@ def run(chk: Check) -> None:
     run_reparse_forcing(chk, ix)
     run_generic_callee_indirection(chk, ix)
     run_cached_lines_self_contained(chk, ix)
+    run_protocol_member_indirection(chk, ix)
+    run_implicit_callee_indirection(chk, ix)
     # R02.7: the validity record itself survives the JSON round trip (instances of C11's conversion rule)
     from .c11 import run_json_conversions
     run_json_conversions(chk, ix, rid="R02.7", only=("CacheMeta", "CacheMetaEx"), floor=4)
@@ -550,3 +552,43 @@ def run_cached_lines_self_contained(chk: Check, ix) -> None:
             r12.ok(key, aei.loc(t))
         else:
             r12.violation(key, aei.loc(t), f"`{norm(t)}` consults a set shared by all files of the run: the note is attached to the first module that triggers it only, and the error lines cached for the other modules lack it; once the first module stops triggering it a warm run replays the others without the note, a cold run prints it")
+
+
+def run_protocol_member_indirection(chk: Check, ix) -> None:
+    """R02.13: the member types of a protocol reach the indirect dependencies, for every member."""
+    r = chk.rule("R02.13", "TypeIndirectionVisitor.visit_instance walks the member types of a protocol (they are the meaning of a structural type): `protocol_members` lists names collected over the whole MRO, so each name is resolved over the MRO too (TypeInfo.get / get_method), not in the protocol's own `names` table, and for a settable property the declared setter type is walked as well as the getter's; a skipped member type means a module that uses the protocol has no dependency on the module that type comes from, and a warm run misses what a cold run reports", floor=3)
+    f = ix.func("mypy.indirection.TypeIndirectionVisitor.visit_instance")
+    loops = [l for l in ast.walk(f.node) if isinstance(l, ast.For) and isinstance(l.target, ast.Name) and isinstance(l.iter, ast.Attribute) and l.iter.attr == "protocol_members"]
+    if not loops:
+        r.violation("visit_instance walks the members of a protocol", f.loc(), "no loop over protocol_members: member types of protocols are not indirect dependencies at all")
+        return
+    lp = loops[0]
+    m = lp.target.id
+    r.ok("visit_instance walks the members of a protocol", f.loc(lp))
+    own = [x for x in ast.walk(lp) if (isinstance(x, ast.Call) and isinstance(x.func, ast.Attribute) and x.func.attr == "get" and isinstance(x.func.value, ast.Attribute) and x.func.value.attr == "names" and x.args and norm(x.args[0]) == m) or (isinstance(x, ast.Subscript) and isinstance(x.value, ast.Attribute) and x.value.attr == "names" and norm(x.slice) == m)]
+    wide = [x for x in ast.walk(lp) if isinstance(x, ast.Call) and isinstance(x.func, ast.Attribute) and x.func.attr in ("get", "get_method", "get_containing_type_info") and not (isinstance(x.func.value, ast.Attribute) and x.func.value.attr == "names") and x.args and norm(x.args[0]) == m]
+    key = "each member name is resolved over the MRO"
+    if own and not wide:
+        r.violation(key, f.loc(own[0]), f"`{norm(own[0])}` looks only in the protocol's own symbol table, but protocol_members includes the names declared in base protocols: their types are never walked (`class P2(P1, Protocol)` used as a parameter type gives no dependency on the modules P1's member types come from)")
+    elif wide:
+        r.ok(key, f.loc(wide[0]), norm(wide[0]))
+    else:
+        raise AnalysisError("visit_instance: the lookup of a protocol member inside the loop was not recognised")
+    key = "the setter type of a settable property member is walked"
+    if any(isinstance(x, ast.Attribute) and x.attr == "setter_type" for x in ast.walk(lp)):
+        r.ok(key, f.loc(lp))
+    else:
+        r.violation(key, f.loc(lp), "only `node.type` (the getter's type) is walked: a protocol property whose setter takes a type from another module gives no dependency on that module")
+
+
+def run_implicit_callee_indirection(chk: Check, ix) -> None:
+    """R02.14: the signature an implicit method call is checked against reaches the indirect dependencies."""
+    r = chk.rule("R02.14", "indirect dependencies are computed from the types of the module's expressions; for `x.f(y)` the callee `x.f` is an expression, but for `x + y`, `x[y]` and `x(y)` through __call__ the method's signature is looked up by name (check_method_call_by_name -> check_method_call) and is no expression's type: check_method_call therefore hands `method_type` to something that records it (a store into the type map, module_refs, or a set given to patch_indirect_dependencies), or the parameter types of __add__ / __getitem__ / __call__ give the caller no dependency on the modules they come from", floor=1)
+    f = ix.func("mypy.checkexpr.ExpressionChecker.check_method_call")
+    passthrough = {"transform_callee_type", "check_call", "method_fullname", "get_proper_type"}
+    rec = [c for c in ast.walk(f.node) if isinstance(c, ast.Call) and call_name_(c) not in passthrough and any(isinstance(n, ast.Name) and n.id == "method_type" for a in list(c.args) + [k.value for k in c.keywords] for n in ast.walk(a))]
+    key = "check_method_call records the signature of the implicitly called method for indirect dependencies"
+    if rec:
+        r.ok(key, f.loc(rec[0]), norm(rec[0])[:80])
+    else:
+        r.violation(key, f.loc(), "`method_type` only flows into transform_callee_type and check_call: nothing makes it visible to patch_indirect_dependencies")
